@@ -6,10 +6,12 @@ PROP = dict(
     rule='four streams, 3:2:3:2 -- (a) atoms printed from random PMS abstract syntax (blocker, operator, category, '
          'names with digits/hyphens/version look-alikes, versions with letter, several suffixes, revision, glob, '
          'slot/sub-slot/slot operator, repository, 2-style and 4-style USE dependencies) through atom.RawParseAtom in '
-         'all four flag combinations; (b) listed corner cases, byte-level mutations of valid atoms and byte soup; '
-         '(c) dependency strings printed from random trees (all-of, ||, ^^, ??, flag?, !flag?, depth up to 6) with '
+         'all four flag combinations; (b) listed corner cases, byte-level mutations of valid atoms, valid atoms with '
+         'trailing junk and byte soup; '
+         '(c) dependency strings printed from random trees (all-of, ||, ^^, ??, flag?, !flag?, depth up to 7) with '
          'random white space through depend.DecodeDependencies and String(); (d) token soup, token-level mutations '
-         '(dropped/doubled/swapped tokens), glued tokens, control bytes as separators, byte mutations and byte soup. '
+         '(dropped/doubled/swapped/inserted tokens, one structural token lengthened or shortened), glued tokens, '
+         'control bytes as separators, a bare USE conditional inside a valid string, byte mutations and byte soup. '
          'Non-trivial: grammar atoms with >= 3 optional parts, grammar trees of depth >= 2, negative inputs that '
          'are accepted or have >= 2 tokens; distinct by (kind, flags, input bytes)',
     explanation='theorems: no panic / no divergence for every byte string (atoms and dependency strings); '
